@@ -42,7 +42,7 @@ def corpus():
 
 
 def generate(rng, tier):
-    n = 800 if tier == 'quick' else 20000
+    n = 2000 if tier == 'quick' else 20000
     return [L.gen_history(rng, PROFILE, rng.randint(3, 45)) for _ in range(n)]
 
 
